@@ -3,7 +3,15 @@ import os, random, re
 from vlib import *
 from l2common import *
 
-THEOREMS = {"C09": ["write_keeps_original", "bad_section_writes_nothing", "failed_write_stops_removals"], "C10": ["fault_is_fatal", "no_fault_no_fault"]}
+THEOREMS = {"C09": ["write_keeps_original", "bad_section_writes_nothing", "failed_write_stops_removals",
+                    "pure_rename_never_lost_gen", "pure_rename_never_lost", "pure_rename_fault_at_any_operation",
+                    "pure_rename_reverse_never_lost", "finish_unlink_after_writes", "finish_unlinks_sources_only",
+                    "wrote_moment", "Steps_trace", "rename_source_outlives_destination",
+                    "section_tail_unlink_after_write", "section_unlink_after_write", "source_kept_until_all_written",
+                    "rename_source_or_destination", "backup_section_keeps_original",
+                    "backup_section_then_finish_keeps_original", "backup_run_keeps_original",
+                    "text_abort_keeps_whole_states", "text_abort_run", "text_abort_after_first_section",
+                    "no_patch_text_abort"], "C10": ["fault_is_fatal", "no_fault_no_fault"]}
 
 FAULT_CALLS = ["read", "write", "openat", "rename", "unlink", "chmod", "mkdir", "symlink", "rmdir"]
 KILL_CALLS = FAULT_CALLS + ["close", "newfstatat", "lseek", "fstat"]
